@@ -76,8 +76,7 @@ Fixpoint zero_val (n : node) {struct n} : val :=
     if p then VPtr None else
     match ty with
     | typeBasic => match skind_of_name tu with Some k => zero_scalar k | None => VInt 0 end
-    | typeStruct => VStruct ((fix go (l : list node) : list val :=
-                                match l with [] => [] | c :: r => zero_val c :: go r end) chld)
+    | typeStruct => VStruct (map zero_val chld)
     | typeMap => VMap true []
     | typeSlice => if String.eqb tn "[]byte" then VBytes true [] 0 else VSlice true [] 0
     end
@@ -94,6 +93,14 @@ Definition scalar_range_ok (k : skind) (v : val) : bool :=
   | _, _ => false
   end.
 
+Definition forallb2 {A B} (f : A -> B -> bool) : list A -> list B -> bool :=
+  fix go (l : list A) (m : list B) : bool :=
+    match l, m with
+    | [], [] => true
+    | x :: r, y :: s => f x y && go r s
+    | _, _ => false
+    end.
+
 Fixpoint wtb (n : node) (v : val) {struct n} : bool :=
   match n with
   | Node ty tn tu nm pk pki p chld mk mv sl hb hc =>
@@ -103,12 +110,7 @@ Fixpoint wtb (n : node) (v : val) {struct n} : bool :=
       | typeStruct =>
         match v with
         | VStruct fs =>
-          (fix go (cs : list node) (vs : list val) : bool :=
-             match cs, vs with
-             | [], [] => true
-             | c :: cr, x :: xr => wtb c x && go cr xr
-             | _, _ => false
-             end) chld fs
+          forallb2 wtb chld fs
         | _ => false
         end
       | typeMap =>
